@@ -34,6 +34,15 @@ func init() {
 }
 
 func init() {
+	// C12 / C10: a Close issued from within an event callback returns (no call blocks forever)
+	for _, prop := range []string{"C12", "C10"} {
+		vexplore.Register(prop, func(tier string) []*vexplore.Scenario {
+			return []*vexplore.Scenario{{Name: "callback-closes-its-listener-dialer-or-socket", Mode: "enum", Reset: kit.ResetGlobals, Body: HookClosesEndpoint, NeedCounters: []string{"endpoint-closed-from-within-a-callback"}}}
+		})
+	}
+}
+
+func init() {
 	vexplore.Register("C13", func(tier string) []*vexplore.Scenario {
 		d, b := 6, 2
 		if tier == "thorough" {
@@ -47,6 +56,7 @@ func init() {
 				NeedCounters: []string{"attached", "refused-by-protocol"}},
 			{Name: fmt.Sprintf("listener-hook-replaced-hist-D%d", d-1), Mode: "hist", Reset: kit.ResetGlobals, Body: func() { hookSwapHist(d - 1) },
 				NeedCounters: []string{"attached", "detached", "hook-replaced-with-live-pipes", "event-after-hook-replacement"}},
+			{Name: "callback-closes-its-listener-dialer-or-socket", Mode: "enum", Reset: kit.ResetGlobals, Body: HookClosesEndpoint, NeedCounters: []string{"endpoint-closed-from-within-a-callback"}},
 			{Name: fmt.Sprintf("dialer-xpub-hist-D%d", d), Mode: "hist", Reset: kit.ResetGlobals, Body: func() { dialerHist(d) },
 				NeedCounters: []string{"attached", "detached", "redialled", "redial-refused"}},
 			{Name: fmt.Sprintf("two-dialers-xpair-hist-D%d", d-1), Mode: "hist", Reset: kit.ResetGlobals, Body: func() { twoDialersHist(d - 1) },
@@ -405,6 +415,98 @@ func hookSwapHist(depth int) {
 }
 
 const probeEvent = mangos.PipeEvent(-77)
+
+// HookClosesEndpoint: the application's event callback closes, from within the callback, the
+// listener or dialer that produced the pipe - or the whole socket - in Attaching or in Attached, for
+// the first or the second connection.  Callbacks run on the library's accept / dial threads, so a
+// Close that waits for those threads would wait for itself: the call returns, the pipe's events stay
+// consistent, nothing is accepted or dialled afterwards, and the socket closes.
+func HookClosesEndpoint() {
+	side := []string{"listener", "dialer"}[kit.ChooseFree(2)]
+	what := []string{"endpoint", "socket"}[kit.ChooseFree(2)]
+	when := []mangos.PipeEvent{mangos.PipeEventAttaching, mangos.PipeEventAttached}[kit.ChooseFree(2)]
+	nth := kit.ChooseFree(2)
+	w := newWorld(xpub.NewProtocol, "vt://hce")
+	w.dialer = side == "dialer"
+	w.ep = vt.Get("hce")
+	returned, called, seen := false, false, 0
+	w.sock.SetPipeEventHook(func(ev mangos.PipeEvent, p mangos.Pipe) {
+		w.hook(ev, p)
+		if ev != when {
+			return
+		}
+		seen++
+		if seen-1 != nth || called {
+			return
+		}
+		called = true
+		switch {
+		case what == "socket":
+			_ = w.sock.Close()
+		case side == "listener":
+			_ = p.Listener().Close()
+		default:
+			_ = p.Dialer().Close()
+		}
+		returned = true
+	})
+	if side == "listener" {
+		if err := w.sock.Listen("vt://hce"); err != nil {
+			kit.Failf("setup", "Listen: %s", kit.ErrName(err))
+		}
+		for i := 0; i <= nth; i++ {
+			w.policy = append(w.policy, "")
+			w.ep.Connect()
+			kit.Quiesce()
+		}
+	} else {
+		w.ep.Script(vt.DialOK)
+		_ = w.sock.SetOption(mangos.OptionReconnectTime, 100*time.Millisecond)
+		_ = w.sock.SetOption(mangos.OptionMaxReconnectTime, 100*time.Millisecond)
+		dc := kit.Start("Dial", func() (interface{}, error) { return nil, w.sock.Dial("vt://hce") })
+		kit.Quiesce()
+		if !dc.Done() {
+			kit.Failf("hang:dial:hook-closes-"+what, "Dial does not return (the callback closes the %s in event %d)", what, when)
+		}
+		if nth == 1 {
+			// the first connection is lost, the dialer makes the second
+			if vp := w.ep.PipeAt(0); vp != nil && vp.Alive() {
+				vp.DropNow()
+			}
+			kit.Sleep(150 * time.Millisecond)
+			kit.Quiesce()
+		}
+	}
+	kit.Sleep(time.Second)
+	kit.Quiesce()
+	if !called {
+		kit.Failf("setup", "the callback never saw event %d of connection %d", when, nth)
+	}
+	if !returned {
+		kit.Failf("hang:close-from-callback:"+side+":"+what, "Close of the %s (%s side) called from within the event callback (event %d) never returned", what, side, when)
+	}
+	// nothing is accepted / dialled any more; every pipe seen has a consistent history
+	n := len(w.list)
+	if side == "listener" && what == "endpoint" {
+		// (vt: a connection attempt to a closed listener is not taken)
+	}
+	kit.Sleep(time.Second)
+	kit.Quiesce()
+	if side == "dialer" && len(w.list) != n {
+		kit.Failf("dial-after-close", "the %s was closed from the callback, yet a further connection was made afterwards", what)
+	}
+	for i, st := range w.list {
+		if st.attaching != 1 || st.attached > 1 || st.detached > st.attached {
+			kit.Failf("grammar-after-close-from-callback", "connection %d: Attaching %d Attached %d Detached %d", i, st.attaching, st.attached, st.detached)
+		}
+	}
+	kit.Count("endpoint-closed-from-within-a-callback")
+	kit.Observe("%s %s %d %d", side, what, when, nth)
+	if what != "socket" {
+		kit.Must("Socket.Close", func() { _ = w.sock.Close() })
+	}
+	kit.Quiesce()
+}
 
 func dialerHist(depth int) {
 	w := newWorld(xpub.NewProtocol, "vt://dl")
